@@ -62,10 +62,13 @@ void do_plan(int tier)
   for (int t = 0; t < plan.nthreads; t++) {
     plan.nops[t] = 1 + (int)sim_plan(plan.nthreads > 3 ? 8 : C19_MAXOPS);
     for (int i = 0; i < plan.nops[t]; i++) {
-      static const uint8_t sk[] = {C19_S_FRESH, C19_S_FRESH, C19_S_RENEW, C19_S_RENEW, C19_S_COPY, C19_S_MOVE, C19_S_ASSIGN, C19_S_MOVE_ASSIGN};
+      static const uint8_t sk[] = {C19_S_FRESH, C19_S_FRESH, C19_S_RENEW, C19_S_RENEW, C19_S_COPY, C19_S_MOVE, C19_S_ASSIGN, C19_S_MOVE_ASSIGN,
+                                   C19_S_RENEW_MANY};
       plan.ops[t][i].kind = sk[sim_plan(sizeof sk)];
       plan.ops[t][i].a = (uint8_t)sim_plan(C19_STAMPS);
       plan.ops[t][i].b = (uint8_t)sim_plan(C19_STAMPS);
+      if (plan.ops[t][i].kind == C19_S_RENEW_MANY)
+        plan.ops[t][i].b = (uint8_t)sim_plan(8);  // 20..90 stamps
     }
   }
 }
